@@ -6,6 +6,7 @@ import (
 	"path/filepath"
 	"sort"
 	"strings"
+	"time"
 
 	"verif/harness/crashfs"
 )
@@ -28,7 +29,13 @@ type Runner struct {
 	// that did not complete Close must be recovered; whatever Close did before failing must be harmless).
 	FailClose    bool
 	FailedCloses int
-	FailedOpens  int
+	// FailMaint: some Compact / Sync / Backup calls fail with an injected file-system error at a seeded mutating
+	// call; the call returns the error and the database must stay usable: the next call returns (watchdog) and a
+	// read-back shows the contents untouched (C10: no lock left behind on an error path, C15: usable afterwards).
+	FailMaint   bool
+	FailedMaint int
+	maintFailed bool // a maintenance call of this program failed with an injected error
+	FailedOpens int
 	// ReadBack after every mutating call.
 	ReadEvery bool
 	// Alt alternates fs.OS and fs.OSMMap between sessions.
@@ -69,7 +76,7 @@ func NewRunner(rec *Rec, p *Program, rp RunParams) *Runner {
 		rp.HashSeed = CurrentHashSeed()
 	}
 	r := &Runner{Mode: mode, Rng: rand.New(rand.NewSource(seed)), Dir: "db", seen: map[[3]uint64]bool{}, PowerLimit: rp.PLimit,
-		Depth: rp.Depth, Twice: rp.Twice, ReadEvery: true, Probe: rp.Probe, FullEvery: rp.FullEvery, OnlyClosed: rp.OnlyClosed, FailOpen: rp.FailOpen, FailClose: rp.FailClose}
+		Depth: rp.Depth, Twice: rp.Twice, ReadEvery: true, Probe: rp.Probe, FullEvery: rp.FullEvery, OnlyClosed: rp.OnlyClosed, FailOpen: rp.FailOpen, FailClose: rp.FailClose, FailMaint: rp.FailMaint}
 	cfg := p.Cfg
 	switch cfg.FS {
 	case "", "crashfs":
@@ -476,6 +483,17 @@ func (r *Runner) Run(p *Program) error {
 			r.crashAt = &oc
 			continue
 		}
+		if r.maintFailed && (o.Op == "close" || o.Op == "reopen" || o.Op == "crashnow" || o.Op == "powernow") {
+			// What a restart finds after a maintenance call FAILED with a file-system error is stated by none of the
+			// properties (they quantify over crashes and power failures, not over I/O errors of Compact): the
+			// recording ends here, judged up to this point (the calls returned, in-session reads were right).
+			r.S.R.Emit(Ev{"e": "note", "what": "the recording ends before the restart that follows a failed maintenance call"})
+			if r.S.DB != nil {
+				r.S.DB.Close()
+				r.S.DB = nil
+			}
+			return nil
+		}
 		r.Ops++
 		armed := false
 		if (o.Op == "close" || o.Op == "reopen") && r.FailClose && r.FS != nil && r.S.DB != nil && r.Rng.Intn(2) == 0 {
@@ -497,7 +515,42 @@ func (r *Runner) Run(p *Program) error {
 			}
 			armed = true
 		}
+		armedM := false
+		if (o.Op == "compact" || o.Op == "sync" || o.Op == "backup") && len(o.Inject) == 0 && r.FailMaint && r.FS != nil && r.S.DB != nil && r.crashAt == nil && r.Rng.Intn(2) == 0 {
+			n, at := 0, 1+r.Rng.Intn(24)
+			r.FS.Fail = func(c *crashfs.Call) error {
+				n++
+				if n == at {
+					return fmt.Errorf("injected transient file-system error")
+				}
+				return nil
+			}
+			armedM = true
+		}
 		died, err := r.step(o)
+		if armedM {
+			r.FS.Fail = nil
+			if !died && ErrKind(err) == "injected" {
+				r.FailedMaint++
+				r.maintFailed = true
+				r.S.R.Emit(Ev{"e": "note", "what": o.Op + " failed with an injected error", "err": err.Error()})
+				alive := make(chan struct{})
+				go func() {
+					r.S.Do(Op{Op: "count"})
+					close(alive)
+				}()
+				select {
+				case <-alive:
+				case <-time.After(20 * time.Second):
+					r.S.R.Emit(Ev{"e": "stuck", "what": "the call after a failed " + o.Op + " did not return within 20 s (a lock left behind on the error path?)"})
+					r.S.DB = nil // nothing may touch this handle any more (Close would hang too)
+					return fmt.Errorf("stuck after a failed %s", o.Op)
+				}
+				r.S.ReadAll()
+				r.between()
+				continue
+			}
+		}
 		if armed {
 			r.FS.Fail = nil
 			if !died && ErrKind(err) == "injected" {
@@ -594,6 +647,12 @@ func isMutating(op string) bool {
 // independent decoder of the documented format and replayed in sequence order (C18).
 func (r *Runner) CloseAndDecode() {
 	if r.S.DB == nil || r.Mode != "seq" {
+		return
+	}
+	if r.maintFailed {
+		// (see Run: nothing is claimed about the files after a maintenance call that failed with an I/O error)
+		r.S.DB.Close()
+		r.S.DB = nil
 		return
 	}
 	if !r.closedWin { // (the program may have ended with its own Close)
